@@ -28,6 +28,7 @@ package main
 //   add [edge=<double-space|zero-amount> ]dur=<text> carrier=<kind> got=<…> want=<…>
 
 import (
+	"bytes"
 	"encoding/json"
 	"fmt"
 	"math"
@@ -380,6 +381,7 @@ func c20(r *Run) {
 	c20TimeAdd(r)
 	c20DSTAdd(r)
 	c20DurVar(r)
+	c20ChainOperand(r)
 	c20Chains(r)
 }
 
@@ -1964,4 +1966,34 @@ func c20TimeAdd(r *Run) {
 		check(e.txt, e.d, pickVar(i+2), true)
 	}
 	tag = ""
+}
+
+// c20ChainOperand: numeric text handed over by an EARLIER modifier of the same chain (an escape of digits is the
+// digits; a formatted time field is a number) is an operand like the same text in a variable: `n|M|math::op(k)` renders
+// what `n|math::op(k)` renders, and `t|time::date("%Y")|math::sub(1)` is the year before. A relation on the real engine.
+func c20ChainOperand(r *Run) {
+	render := func(src string) (rendered, string) {
+		key, err, pan := regTpl(src, true)
+		if err != nil || pan != "" {
+			return rendered{}, fmt.Sprintf("Parse rejects %s: %v %s", src, err, pan)
+		}
+		ctx := dyntpl.NewCtx()
+		ctx.SetString("n", "41")
+		ctx.SetString("f", "2.5")
+		ctx.SetStatic("t", time.Date(2006, 1, 2, 15, 4, 5, 0, time.UTC))
+		return renderSafe(key, ctx), ""
+	}
+	for _, pair := range [][3]string{{`{%= n|math::inc %}`, `{%= n|htmlEscape|math::inc %}`, "42"}, {`{%= n|math::add(1) %}`, `{%= n|urlEncode|jsonEscape|math::add(1) %}`, "42"},
+		{`{%= f|math::mul(2) %}`, `{%= f|attrEscape|math::mul(2) %}`, ""}, {`{%= n|math::mod(12) %}`, `{%= n|cssEscape|math::mod(12) %}`, "5"}, {`{%= n|math::sub(1)|math::abs %}`, `{%= n|jsEscape|math::sub(1)|math::abs %}`, "40"},
+		{`2005`, `{%= t|time::date("%Y")|math::sub(1) %}`, "2005"}, {`3`, `{%= t|time::date("%H")|math::mod(12) %}`, "3"}, {`{%= n|math::max(50) %}`, `{%= n|linkEscape|math::max(50) %}`, "50"}} {
+		a, ba := render(pair[0])
+		b, bb := render(pair[1])
+		sig := "chain-operand " + pair[1]
+		r.Count(sig, true)
+		r.Dist["chain-operand"]++
+		if ba != "" || bb != "" || a.ErrStr() != b.ErrStr() || !bytes.Equal(a.Out, b.Out) || (pair[2] != "" && string(b.Out) != pair[2]) {
+			r.Violate(sig, "numeric text handed over by an earlier modifier of the chain is not taken as an operand by the arithmetic modifier that follows",
+				map[string]any{"reference": pair[0], "chain": pair[1], "reference_output": string(a.Out), "chain_output": string(b.Out), "expected": pair[2], "reference_error": a.ErrStr(), "chain_error": b.ErrStr(), "problem": ba + bb})
+		}
+	}
 }
